@@ -565,3 +565,488 @@ Proof.
   destruct K as (K1 & K2 & _ & _ & K5 & K6 & _ & K8 & _).
   repeat split; congruence.
 Qed.
+
+(* (a) the leader, asked to transfer to a caught-up voter, answers with MsgTimeoutNow at once *)
+Theorem transfer_starts L m L' c pr :
+  is_leader L = true -> r_lead_transferee L = None ->
+  m_type m = MsgTransferLeader -> same_term_msg L m ->
+  m_from m <> r_id L -> get_pr L (m_from m) = Some pr ->
+  IdSet.mem (m_from m) (learners (conf_of L)) = false ->
+  matched pr = last_index (r_log L) ->
+  step L m = Ok (L', c) ->
+  exists x, L' = (tl_start L (m_from m)) <| r_msgs := r_msgs L ++ [x] |> /\
+    m_type x = MsgTimeoutNow /\ m_to x = m_from m /\ m_term x = r_term L.
+Proof.
+  intros Hl Hlt Hty Hterm Hne Hpr Hlr Hm H.
+  rewrite (step_leader_transfer _ _ Hl Hty Hterm) in H.
+  apply bind_ok in H. destruct H as (r1 & Hh & H). inversion H; subst r1 c; clear H.
+  apply handle_transfer_leader_shape in Hh.
+  destruct Hh as [[_ Hi]|[(Hs & _)|(_ & _ & _ & pr' & Hpr' & [[_ Hs]|[Hnm _]])]].
+  - exfalso. destruct Hi as [Hi|[Hi|[Hi|[Hi _]]]]; congruence.
+  - congruence.
+  - apply send_timeout_now_spec in Hs. destruct Hs as (x & -> & A & B & C0).
+    exists x. repeat split; assumption.
+  - exfalso. rewrite Hpr in Hpr'. inversion Hpr'; subst. contradiction.
+Qed.
+
+(* ================================================================== *)
+(* 5. ticks that do not fire *)
+
+Lemma tick1_waits r :
+  r_state r <> Leader -> r_election_elapsed r + 1 < r_randomized_election_timeout r ->
+  tick1 r = Ok (r <| r_election_elapsed := r_election_elapsed r + 1 |>).
+Proof.
+  intros Hs Hw. unfold tick1.
+  assert (Ht : tick r = tick_election r) by (unfold tick; destruct (r_state r); congruence).
+  rewrite Ht. unfold tick_election, pass_election_timeout.
+  change (r_randomized_election_timeout (r <| r_election_elapsed := r_election_elapsed r + 1 |>))
+    with (r_randomized_election_timeout r).
+  change (r_election_elapsed (r <| r_election_elapsed := r_election_elapsed r + 1 |>))
+    with (r_election_elapsed r + 1).
+  destruct (r_randomized_election_timeout r <=? r_election_elapsed r + 1) eqn:E; [lia|].
+  reflexivity.
+Qed.
+
+Lemma tick1_waits_leader r :
+  r_state r = Leader -> r_election_elapsed r + 1 < r_election_timeout r ->
+  r_heartbeat_elapsed r + 1 < r_heartbeat_timeout r ->
+  tick1 r = Ok (r <| r_heartbeat_elapsed := r_heartbeat_elapsed r + 1 |>
+                  <| r_election_elapsed := r_election_elapsed r + 1 |>).
+Proof.
+  intros Hs He Hh. unfold tick1, tick. rewrite Hs. unfold tick_heartbeat.
+  set (r1 := r <| r_heartbeat_elapsed := r_heartbeat_elapsed r + 1 |>
+               <| r_election_elapsed := r_election_elapsed r + 1 |>).
+  change (r_election_timeout r1) with (r_election_timeout r).
+  change (r_election_elapsed r1) with (r_election_elapsed r + 1).
+  destruct (r_election_timeout r <=? r_election_elapsed r + 1) eqn:E1; [lia|]. cbn [bind].
+  assert (Hl : is_leader r1 = true) by (unfold is_leader; subst r1; cbn; rewrite Hs; reflexivity).
+  rewrite Hl. cbn [negb].
+  change (r_heartbeat_timeout r1) with (r_heartbeat_timeout r).
+  change (r_heartbeat_elapsed r1) with (r_heartbeat_elapsed r + 1).
+  destruct (r_heartbeat_timeout r <=? r_heartbeat_elapsed r + 1) eqn:E2; [lia|]. reflexivity.
+Qed.
+
+(* ================================================================== *)
+(* 6. the inboxes of a three-node mesh *)
+
+Definition to_node (id : N) (ms : list msg) : list msg := filter (fun m => m_to m =? id) ms.
+
+Lemma inbox3 id A B C0 :
+  inbox id [A; B; C0] = to_node id (r_msgs A) ++ to_node id (r_msgs B) ++ to_node id (r_msgs C0).
+Proof. unfold inbox, to_node. cbn [flat_map]. rewrite app_nil_r. reflexivity. Qed.
+
+Lemma mesh_round3 A B C0 out :
+  mesh_round [A; B; C0] = Ok out ->
+  exists a1 b1 c1 a2 b2 c2,
+    deliver [A; B; C0] A = Ok a1 /\ deliver [A; B; C0] B = Ok b1 /\ deliver [A; B; C0] C0 = Ok c1 /\
+    tick1 a1 = Ok a2 /\ tick1 b1 = Ok b2 /\ tick1 c1 = Ok c2 /\ out = [a2; b2; c2].
+Proof.
+  intros H. unfold mesh_round in H. apply bind_ok in H. destruct H as (rs1 & H1 & H2).
+  cbn [mmapM] in H1.
+  apply bind_ok in H1. destruct H1 as (a1 & Ha & H1).
+  apply bind_ok in H1. destruct H1 as (l1 & H1 & E1).
+  apply bind_ok in H1. destruct H1 as (b1 & Hb & H1).
+  apply bind_ok in H1. destruct H1 as (l2 & H1 & E2).
+  apply bind_ok in H1. destruct H1 as (c1 & Hc & H1).
+  apply bind_ok in H1. destruct H1 as (l3 & H1 & E3).
+  inversion H1; subst l3. inversion E3; subst l2. inversion E2; subst l1. inversion E1; subst rs1.
+  cbn [mmapM] in H2.
+  apply bind_ok in H2. destruct H2 as (a2 & Ha2 & H2).
+  apply bind_ok in H2. destruct H2 as (k1 & H2 & F1).
+  apply bind_ok in H2. destruct H2 as (b2 & Hb2 & H2).
+  apply bind_ok in H2. destruct H2 as (k2 & H2 & F2).
+  apply bind_ok in H2. destruct H2 as (c2 & Hc2 & H2).
+  apply bind_ok in H2. destruct H2 as (k3 & H2 & F3).
+  inversion H2; subst k3. inversion F3; subst k2. inversion F2; subst k1. inversion F1; subst out.
+  exists a1, b1, c1, a2, b2, c2. repeat split; assumption.
+Qed.
+
+(* the vote requests of a candidate, sorted by addressee *)
+Lemma vote_reqs_to id li lt t p : forall ids new v,
+  Forall2 (VoteReq id li lt t p) ids new -> NoDup ids -> In v ids ->
+  exists x, to_node v new = [x] /\ VoteReq id li lt t p v x.
+Proof.
+  induction ids as [|a ids IH]; intros new v Hf Hn Hi; [destruct Hi|].
+  inversion Hf as [|? x0 ? new' Hx Hf']; subst. inversion Hn as [|? ? Na Nn]; subst.
+  unfold to_node. cbn [filter]. rewrite (vr_to _ _ _ _ _ _ _ Hx).
+  assert (Hnot : forall w, ~ In w ids -> filter (fun m => m_to m =? w) new' = []).
+  { clear - Hf'. intros w Hw. induction Hf' as [|b y ids' new'' Hy Hf'' IH']; [reflexivity|].
+    cbn [filter]. rewrite (vr_to _ _ _ _ _ _ _ Hy).
+    destruct (N.eqb_spec b w) as [E|E]; [exfalso; apply Hw; left; exact E|].
+    apply IH'. intros K. apply Hw. right. exact K. }
+  destruct (N.eqb_spec a v) as [E|E].
+  - subst a. exists x0. split; [|exact Hx]. rewrite (Hnot v Na). reflexivity.
+  - destruct Hi as [Hi|Hi]; [congruence|].
+    destruct (IH new' v Hf' Nn Hi) as (x & Hx1 & Hx2). exists x. split; [exact Hx1|exact Hx2].
+Qed.
+
+Lemma vote_reqs_not_to id li lt t p ids new v :
+  Forall2 (VoteReq id li lt t p) ids new -> ~ In v ids -> to_node v new = [].
+Proof.
+  intros Hf Hv. induction Hf as [|b y ids' new' Hy Hf' IH]; [reflexivity|].
+  unfold to_node. cbn [filter]. rewrite (vr_to _ _ _ _ _ _ _ Hy).
+  destruct (N.eqb_spec b v) as [E|E]; [exfalso; apply Hv; left; exact E|].
+  apply IH. intros K. apply Hv. right. exact K.
+Qed.
+
+(* ================================================================== *)
+(* 7. the cluster theorem: three voters L (leader), T (target), X *)
+
+Record Start (L T X : raft) (vs : idset) : Prop := mkStart {
+  (* three distinct voters, the whole voter set; not a joint configuration *)
+  st_lt : r_id L <> r_id T;
+  st_lx : r_id L <> r_id X;
+  st_tx : r_id T <> r_id X;
+  st_nd : NoDup vs;
+  st_len : length vs = 3%nat;
+  st_inl : In (r_id L) vs;
+  st_int : In (r_id T) vs;
+  st_inx : In (r_id X) vs;
+  st_conf_in : incoming (conf_of T) = vs;
+  st_conf_out : outgoing (conf_of T) = [];
+  (* L leads, no transfer pending; T and X follow it at its term; T can be promoted *)
+  st_leader : is_leader L = true;
+  st_nopending : r_lead_transferee L = None;
+  st_tf : r_state T = Follower;
+  st_tterm : r_term T = r_term L;
+  st_tprom : r_promotable T = true;
+  st_xf : r_state X = Follower;
+  st_xterm : r_term X = r_term L;
+  (* in L's eyes T is a caught-up voter *)
+  st_pr : exists pr, get_pr L (r_id T) = Some pr /\ matched pr = last_index (r_log L);
+  st_notlearner : IdSet.mem (r_id T) (learners (conf_of L)) = false;
+  (* all three logs end at the same (index, term); T has applied what is committed *)
+  st_li_l : last_index (r_log L) = last_index (r_log T);
+  st_li_x : last_index (r_log X) = last_index (r_log T);
+  st_lt_l : last_term (r_log L) = last_term (r_log T);
+  st_lt_x : last_term (r_log X) = last_term (r_log T);
+  st_applied : committed (r_log T) <= applied (r_log T);
+  (* the priority tie-break does not veto T *)
+  st_prio_l : (r_priority L <= r_priority T)%Z;
+  st_prio_x : (r_priority X <= r_priority T)%Z;
+  (* nothing in flight *)
+  st_msgs_l : r_msgs L = [];
+  st_msgs_t : r_msgs T = [];
+  st_msgs_x : r_msgs X = [];
+  (* no timer fires during the three rounds *)
+  st_et_l : 1 < r_election_timeout L;
+  st_hb_l : r_heartbeat_elapsed L + 1 < r_heartbeat_timeout L;
+  st_et_t : 1 < r_election_timeout T;
+  st_hb_t : 1 < r_heartbeat_timeout T;
+  st_ee_x : r_election_elapsed X + 1 < r_randomized_election_timeout X;
+  st_dr_l : forall d ds, r_draws L = d :: ds -> 2 < d;
+  st_dr_t : forall d ds, r_draws T = d :: ds -> 2 < d;
+  st_dr_x : forall d ds, r_draws X = d :: ds -> 2 < d
+}.
+
+Lemma is_up_to_date_same_end l l' :
+  last_index l = last_index l' -> last_term l = last_term l' ->
+  forall lt, last_term l' = Ok lt -> is_up_to_date l (last_index l') lt = Ok true.
+Proof.
+  intros Hi Ht lt Hl. unfold is_up_to_date. rewrite Ht, Hl. cbn [bind].
+  rewrite Hi, N.ltb_irrefl, N.eqb_refl, N.leb_refl. reflexivity.
+Qed.
+
+Theorem transfer_completes L T X vs m L1 c out :
+  Start L T X vs ->
+  m_type m = MsgTransferLeader -> m_from m = r_id T -> same_term_msg L m ->
+  step L m = Ok (L1, c) ->
+  mesh_rounds 3 [L1; T; X] = Ok out ->
+  exists L' T' X', out = [L'; T'; X'] /\
+    (* the target leads the next term, its log is its old log plus the no-op *)
+    r_state T' = Leader /\ r_term T' = r_term L + 1 /\ r_id T' = r_id T /\
+    r_leader_id T' = r_id T /\
+    (exists z, log_append (r_log T) (stamp [entry_default] (r_term L + 1) (last_index (r_log T) + 1))
+               = Ok (r_log T', z)) /\
+    (* the old leader follows at that term, voted for the target, transfer cleared *)
+    r_state L' = Follower /\ r_term L' = r_term L + 1 /\ r_vote L' = r_id T /\
+    r_lead_transferee L' = None /\ r_id L' = r_id L /\ r_log L' = set_limit (r_log L) 0 /\
+    (* so does the third voter *)
+    r_state X' = Follower /\ r_term X' = r_term L + 1 /\ r_vote X' = r_id T /\
+    r_id X' = r_id X /\ r_log X' = set_limit (r_log X) 0.
+Proof.
+  intros S Hty Hfrom Hterm Hstep Hrun.
+  destruct S.
+  destruct st_pr0 as (pr & Hpr & Hmatched).
+  (* step 0: the request *)
+  rewrite <- Hfrom in Hpr, st_notlearner0.
+  assert (Hne : m_from m <> r_id L) by congruence.
+  destruct (transfer_starts _ _ _ _ _ st_leader0 st_nopending0 Hty Hterm Hne Hpr st_notlearner0 Hmatched Hstep)
+    as (tn & -> & Tn1 & Tn2 & Tn3).
+  rewrite st_msgs_l0 in *. cbn [app] in *. rewrite Hfrom in Tn2.
+  set (La := tl_start L (m_from m) <| r_msgs := [tn] |>) in *.
+  cbn [mesh_rounds] in Hrun.
+  apply bind_ok in Hrun. destruct Hrun as (rs1 & R1 & Hrun).
+  apply bind_ok in Hrun. destruct Hrun as (rs2 & R2 & Hrun).
+  apply bind_ok in Hrun. destruct Hrun as (rs3 & R3 & Hrun). inversion Hrun; subst rs3; clear Hrun.
+  (* ---------------- round 1 ---------------- *)
+  apply mesh_round3 in R1.
+  destruct R1 as (a1 & b1 & c1 & a2 & b2 & c2 & Da & Db & Dc & Ta & Tb & Tc & ->).
+  unfold deliver in Da, Db, Dc. rewrite !inbox3 in Da, Db, Dc.
+  change (r_msgs La) with [tn] in Da, Db, Dc. rewrite st_msgs_t0, st_msgs_x0 in Da, Db, Dc.
+  change (r_id La) with (r_id L) in Da.
+  unfold to_node in Da, Db, Dc. cbn [filter app] in Da, Db, Dc. rewrite Tn2 in Da, Db, Dc.
+  assert (Etl : (r_id T =? r_id L) = false) by (apply N.eqb_neq; congruence).
+  assert (Etx : (r_id T =? r_id X) = false) by (apply N.eqb_neq; congruence).
+  rewrite Etl in Da. rewrite N.eqb_refl in Db. rewrite Etx in Dc.
+  cbn [app msteps] in Da, Db, Dc. inversion Da; subst a1; clear Da. inversion Dc; subst c1; clear Dc.
+  apply bind_ok in Db. destruct Db as ([b1' cb] & Db & E). cbn [fst] in E. inversion E; subst b1'; clear E.
+  (* the target campaigns *)
+  assert (Hst : same_term_msg (T <| r_msgs := [] |>) tn) by (right; cbn; congruence).
+  set (Tq := T <| r_msgs := [] |>) in *.
+  assert (F1 : r_state Tq = Follower) by exact st_tf0.
+  assert (F2 : r_promotable Tq = true) by exact st_tprom0.
+  assert (F3 : committed (r_log Tq) <= applied (r_log Tq)) by exact st_applied0.
+  assert (F4 : incoming (conf_of Tq) = vs) by exact st_conf_in0.
+  assert (F5 : outgoing (conf_of Tq) = []) by exact st_conf_out0.
+  assert (F6 : In (r_id Tq) vs) by exact st_int0.
+  destruct (target_campaigns Tq tn b1 cb vs F1 F2 Tn1 Hst F3 F4 F5 st_nd0 F6 st_len0 Db)
+    as (B0 & B1 & B2 & B3 & B4 & B5 & B6 & B7 & B8 & ltm & new & B9 & B10 & B11).
+  subst Tq.
+  cbn in B2, B3, B4, B5, B8, B9, B10, B11.
+  destruct B0 as (B01 & B02 & B03 & B04 & B05 & B06). cbn in B01, B02, B03, B04, B05, B06.
+  (* ticks of round 1 *)
+  assert (Ea2 : a2 = La <| r_msgs := [] |>
+                   <| r_heartbeat_elapsed := r_heartbeat_elapsed L + 1 |>
+                   <| r_election_elapsed := 1 |>).
+  { rewrite tick1_waits_leader in Ta.
+    - inversion Ta. reflexivity.
+    - cbn. apply is_leader_state. exact st_leader0.
+    - cbn. exact st_et_l0.
+    - cbn. exact st_hb_l0. }
+  assert (Eb2 : b2 = b1 <| r_election_elapsed := 1 |>).
+  { rewrite tick1_waits in Tb.
+    - inversion Tb. rewrite B7. reflexivity.
+    - rewrite B1. discriminate.
+    - rewrite B7. pose proof (st_dr_t0 _ _ B8). lia. }
+  assert (Ec2 : c2 = X <| r_msgs := [] |> <| r_election_elapsed := r_election_elapsed X + 1 |>).
+  { rewrite tick1_waits in Tc.
+    - inversion Tc. reflexivity.
+    - cbn. rewrite st_xf0. discriminate.
+    - cbn. exact st_ee_x0. }
+  clear Ta Tb Tc.
+  (* what round 2 needs of a2 and c2 *)
+  assert (A_id : r_id a2 = r_id L) by (rewrite Ea2; reflexivity).
+  assert (A_ms : r_msgs a2 = []) by (rewrite Ea2; reflexivity).
+  assert (A_tm : r_term a2 = r_term L) by (rewrite Ea2; reflexivity).
+  assert (A_lg : r_log a2 = r_log L) by (rewrite Ea2; reflexivity).
+  assert (A_pr : r_priority a2 = r_priority L) by (rewrite Ea2; reflexivity).
+  assert (A_dr : r_draws a2 = r_draws L) by (rewrite Ea2; reflexivity).
+  assert (C_id : r_id c2 = r_id X) by (rewrite Ec2; reflexivity).
+  assert (C_ms : r_msgs c2 = []) by (rewrite Ec2; reflexivity).
+  assert (C_tm : r_term c2 = r_term X) by (rewrite Ec2; reflexivity).
+  assert (C_lg : r_log c2 = r_log X) by (rewrite Ec2; reflexivity).
+  assert (C_pr : r_priority c2 = r_priority X) by (rewrite Ec2; reflexivity).
+  assert (C_dr : r_draws c2 = r_draws X) by (rewrite Ec2; reflexivity).
+  assert (B_id : r_id b2 = r_id T) by (rewrite Eb2; exact B02).
+  assert (B_ms : r_msgs b2 = new) by (rewrite Eb2; exact B10).
+  clear Ea2 Ec2. clear La Hstep.
+  (* the vote requests, by addressee *)
+  set (others := filter (fun v => negb (v =? r_id T)) vs) in *.
+  assert (Hnd_o : NoDup others) by (apply NoDup_filter; exact st_nd0).
+  assert (Hin_l : In (r_id L) others).
+  { apply filter_In. split; [exact st_inl0|]. apply negb_true_iff, N.eqb_neq. exact st_lt0. }
+  assert (Hin_x : In (r_id X) others).
+  { apply filter_In. split; [exact st_inx0|]. apply negb_true_iff, N.eqb_neq. congruence. }
+  assert (Hnin_t : ~ In (r_id T) others).
+  { intros K. apply filter_In in K. destruct K as [_ K]. rewrite N.eqb_refl in K. discriminate. }
+  destruct (vote_reqs_to _ _ _ _ _ _ _ _ B11 Hnd_o Hin_l) as (rvl & Hrvl & Vl).
+  destruct (vote_reqs_to _ _ _ _ _ _ _ _ B11 Hnd_o Hin_x) as (rvx & Hrvx & Vx).
+  pose proof (vote_reqs_not_to _ _ _ _ _ _ _ _ B11 Hnin_t) as Hrvt.
+  (* ---------------- round 2 ---------------- *)
+  apply mesh_round3 in R2.
+  destruct R2 as (a3 & b3 & c3 & a4 & b4 & c4 & Da & Db2 & Dc & Ta & Tb & Tc & ->).
+  unfold deliver in Da, Db2, Dc. rewrite !inbox3 in Da, Db2, Dc.
+  rewrite A_ms, B_ms, C_ms in Da, Db2, Dc.
+  rewrite A_id in Da. rewrite B_id in Db2. rewrite C_id in Dc.
+  rewrite Hrvl in Da. rewrite Hrvt in Db2. rewrite Hrvx in Dc.
+  cbn [to_node filter app msteps] in Da, Db2, Dc.
+  inversion Db2; subst b3; clear Db2.
+  apply bind_ok in Da. destruct Da as ([a3' ca] & Da & E). cbn [fst] in E. inversion E; subst a3'; clear E.
+  apply bind_ok in Dc. destruct Dc as ([c3' cc] & Dc & E). cbn [fst] in E. inversion E; subst c3'; clear E.
+  (* both voters grant *)
+  assert (Grant : forall V idv rv V' cv,
+     VoteReq (r_id T) (last_index (r_log T)) ltm (r_term T + 1) (r_priority T) idv rv ->
+     r_term V = r_term L -> last_index (r_log V) = last_index (r_log T) ->
+     last_term (r_log V) = last_term (r_log T) -> (r_priority V <= r_priority T)%Z ->
+     step V rv = Ok (V', cv) ->
+     same_static V V' /\ r_state V' = Follower /\ r_term V' = r_term L + 1 /\ r_vote V' = r_id T /\
+     r_log V' = set_limit (r_log V) 0 /\ r_lead_transferee V' = None /\
+     r_election_elapsed V' = 0 /\ r_leader_id V' = INVALID_ID /\
+     r_draws V = r_randomized_election_timeout V' :: r_draws V' /\
+     exists y, r_msgs V' = r_msgs V ++ [y] /\ m_type y = MsgRequestVoteResponse /\
+       m_to y = r_id T /\ m_term y = r_term L + 1 /\ m_reject y = false /\ m_from y = r_id V).
+  { intros V idv rv V' cv [v1 v2 v3 v4 v5 v6 v7 v8] Htm Hli Hltm Hp Hs.
+    assert (U : is_up_to_date (r_log V) (m_index rv) (m_log_term rv) = Ok true).
+    { rewrite v5, v6. apply is_up_to_date_same_end; assumption. }
+    assert (P : ((last_index (r_log V) <? m_index rv) || (r_priority V <=? get_priority rv)%Z) = true).
+    { rewrite v8. apply orb_true_iff. right. apply Z.leb_le. exact Hp. }
+    assert (Lt : r_term V < m_term rv) by (rewrite v3, Htm, st_tterm0; lia).
+    pose proof (voter_grants_forced V rv V' cv v1 v7 Lt U P Hs) as K.
+    rewrite v3, v4, st_tterm0 in K. exact K. }
+  match type of Da with step ?v _ = _ => set (a2q := v) in * end.
+  match type of Dc with step ?v _ = _ => set (c2q := v) in * end.
+  assert (Qa1 : r_term a2q = r_term L) by exact A_tm.
+  assert (Qa2 : last_index (r_log a2q) = last_index (r_log T)).
+  { change (r_log a2q) with (r_log a2). rewrite A_lg. exact st_li_l0. }
+  assert (Qa3 : last_term (r_log a2q) = last_term (r_log T)).
+  { change (r_log a2q) with (r_log a2). rewrite A_lg. exact st_lt_l0. }
+  assert (Qa4 : (r_priority a2q <= r_priority T)%Z).
+  { change (r_priority a2q) with (r_priority a2). rewrite A_pr. exact st_prio_l0. }
+  assert (Qc1 : r_term c2q = r_term L).
+  { change (r_term c2q) with (r_term c2). rewrite C_tm. exact st_xterm0. }
+  assert (Qc2 : last_index (r_log c2q) = last_index (r_log T)).
+  { change (r_log c2q) with (r_log c2). rewrite C_lg. exact st_li_x0. }
+  assert (Qc3 : last_term (r_log c2q) = last_term (r_log T)).
+  { change (r_log c2q) with (r_log c2). rewrite C_lg. exact st_lt_x0. }
+  assert (Qc4 : (r_priority c2q <= r_priority T)%Z).
+  { change (r_priority c2q) with (r_priority c2). rewrite C_pr. exact st_prio_x0. }
+  destruct (Grant a2q _ _ _ _ Vl Qa1 Qa2 Qa3 Qa4 Da)
+    as (GA0 & GA1 & GA2 & GA3 & GA4 & GA5 & GA6 & GA7 & GA8 & ya & GA9 & GA10 & GA11 & GA12 & GA13 & GA14).
+  destruct (Grant c2q _ _ _ _ Vx Qc1 Qc2 Qc3 Qc4 Dc)
+    as (GC0 & GC1 & GC2 & GC3 & GC4 & GC5 & GC6 & GC7 & GC8 & yc & GC9 & GC10 & GC11 & GC12 & GC13 & GC14).
+  subst a2q c2q.
+  cbn in GA4, GA8, GA9, GA14, GC4, GC8, GC9, GC14.
+  destruct GA0 as (_ & GA01 & _). destruct GC0 as (_ & GC01 & _). cbn in GA01, GC01.
+  rewrite A_lg in GA4. rewrite A_dr in GA8. rewrite A_id in GA14, GA01.
+  rewrite C_lg in GC4. rewrite C_dr in GC8. rewrite C_id in GC14, GC01.
+  (* ticks of round 2 *)
+  assert (Ea4 : a4 = a3 <| r_election_elapsed := 1 |>).
+  { rewrite tick1_waits in Ta.
+    - inversion Ta. rewrite GA6. reflexivity.
+    - rewrite GA1. discriminate.
+    - rewrite GA6. pose proof (st_dr_l0 _ _ GA8). lia. }
+  assert (Ec4 : c4 = c3 <| r_election_elapsed := 1 |>).
+  { rewrite tick1_waits in Tc.
+    - inversion Tc. rewrite GC6. reflexivity.
+    - rewrite GC1. discriminate.
+    - rewrite GC6. pose proof (st_dr_x0 _ _ GC8). lia. }
+  assert (Eb4 : b4 = b2 <| r_msgs := [] |> <| r_election_elapsed := 2 |>).
+  { rewrite tick1_waits in Tb.
+    - inversion Tb. rewrite Eb2. reflexivity.
+    - rewrite Eb2. cbn. rewrite B1. discriminate.
+    - rewrite Eb2. cbn. pose proof (st_dr_t0 _ _ B8). lia. }
+  clear Ta Tb Tc.
+  (* ---------------- round 3 ---------------- *)
+  apply mesh_round3 in R3.
+  destruct R3 as (a5 & b5 & c5 & a6 & b6 & c6 & Da3 & Db3 & Dc3 & Ta & Tb & Tc & ->).
+  unfold deliver in Da3, Db3, Dc3. rewrite !inbox3 in Da3, Db3, Dc3.
+  assert (M_a4 : r_msgs a4 = [ya]) by (rewrite Ea4; exact GA9).
+  assert (M_c4 : r_msgs c4 = [yc]) by (rewrite Ec4; exact GC9).
+  assert (M_b4 : r_msgs b4 = []) by (rewrite Eb4; reflexivity).
+  assert (I_a4 : r_id a4 = r_id L) by (rewrite Ea4; exact GA01).
+  assert (I_c4 : r_id c4 = r_id X) by (rewrite Ec4; exact GC01).
+  assert (I_b4 : r_id b4 = r_id T) by (rewrite Eb4, Eb2; exact B02).
+  rewrite M_a4, M_b4, M_c4 in Da3, Db3, Dc3.
+  rewrite I_a4 in Da3. rewrite I_b4 in Db3. rewrite I_c4 in Dc3.
+  unfold to_node in Da3, Db3, Dc3. cbn [filter] in Da3, Db3, Dc3.
+  rewrite GA11, GC11 in Da3, Db3, Dc3.
+  rewrite Etl in Da3. rewrite N.eqb_refl in Db3. rewrite Etx in Dc3.
+  cbn [app msteps] in Da3, Db3, Dc3.
+  inversion Da3; subst a5; clear Da3. inversion Dc3; subst c5; clear Dc3.
+  apply bind_ok in Db3. destruct Db3 as ([t1 ct1] & W1 & Db3). cbn [fst] in Db3.
+  apply bind_ok in Db3. destruct Db3 as ([t2 ct2] & W2 & Db3). cbn [fst] in Db3.
+  inversion Db3; subst t2; clear Db3.
+  match type of W1 with step ?v _ = _ => set (b4q := v) in * end.
+  assert (Q1 : r_state b4q = Candidate) by (subst b4q; rewrite Eb4, Eb2; exact B1).
+  assert (Q2 : r_term b4q = r_term L + 1) by (subst b4q; rewrite Eb4, Eb2; cbn; rewrite B2, st_tterm0; reflexivity).
+  assert (Q3 : t_votes (r_prs b4q) = [(r_id b4q, true)]).
+  { subst b4q. rewrite Eb4, Eb2. cbn. rewrite B5, B02. reflexivity. }
+  assert (Q4 : incoming (conf_of b4q) = vs).
+  { subst b4q. rewrite Eb4, Eb2. change (incoming (conf_of b1) = vs). rewrite B01. exact st_conf_in0. }
+  assert (Q5 : outgoing (conf_of b4q) = []).
+  { subst b4q. rewrite Eb4, Eb2. change (outgoing (conf_of b1) = []). rewrite B01. exact st_conf_out0. }
+  assert (Q6 : r_id b4q = r_id T) by (subst b4q; rewrite Eb4, Eb2; exact B02).
+  assert (Q7 : r_log b4q = r_log T) by (subst b4q; rewrite Eb4, Eb2; exact B4).
+  assert (Q8 : r_election_timeout b4q = r_election_timeout T) by (subst b4q; rewrite Eb4, Eb2; exact B04).
+  assert (Q9 : r_heartbeat_timeout b4q = r_heartbeat_timeout T) by (subst b4q; rewrite Eb4, Eb2; exact B05).
+  assert (Q10 : r_vote b4q = r_id T) by (subst b4q; rewrite Eb4, Eb2; exact B3).
+  assert (W1' := candidate_wins b4q ya t1 ct1 vs Q1 GA10 ltac:(rewrite GA12, Q2; reflexivity) GA13 Q3 Q4 Q5
+                   st_nd0 ltac:(rewrite Q6; exact st_int0) ltac:(rewrite GA14; exact st_inl0)
+                   ltac:(rewrite GA14, Q6; exact st_lt0) st_len0 W1).
+  destruct W1' as (D1 & D2 & D3 & D4 & D5 & D6 & D7 & D8 & D9 & D10 & D11 & z & D12).
+  rewrite Q2 in D2, D12. rewrite Q6 in D3, D5. rewrite Q7 in D12. rewrite Q8 in D10. rewrite Q9 in D11.
+  rewrite (leader_ignores_vote_response t1 yc D1 GC10 ltac:(rewrite GC12, D2; reflexivity)) in W2.
+  inversion W2; subst b5 ct2; clear W2.
+  (* ticks of round 3 *)
+  assert (Eb6 : b6 = t1 <| r_heartbeat_elapsed := 1 |> <| r_election_elapsed := 1 |>).
+  { rewrite tick1_waits_leader in Tb.
+    - inversion Tb. rewrite D8, D9. reflexivity.
+    - exact D1.
+    - rewrite D8, D10. exact st_et_t0.
+    - rewrite D9, D11. exact st_hb_t0. }
+  assert (Ea6 : a6 = a4 <| r_msgs := [] |> <| r_election_elapsed := 2 |>).
+  { rewrite tick1_waits in Ta.
+    - inversion Ta. rewrite Ea4. reflexivity.
+    - rewrite Ea4. cbn. rewrite GA1. discriminate.
+    - rewrite Ea4. cbn. pose proof (st_dr_l0 _ _ GA8). lia. }
+  assert (Ec6 : c6 = c4 <| r_msgs := [] |> <| r_election_elapsed := 2 |>).
+  { rewrite tick1_waits in Tc.
+    - inversion Tc. rewrite Ec4. reflexivity.
+    - rewrite Ec4. cbn. rewrite GC1. discriminate.
+    - rewrite Ec4. cbn. pose proof (st_dr_x0 _ _ GC8). lia. }
+  exists a6, b6, c6. split; [reflexivity|].
+  rewrite Eb6, Ea6, Ec6, Ea4, Ec4. cbn.
+  repeat split; try assumption.
+  exists z. exact D12.
+Qed.
+
+(* ================================================================== *)
+(* 8. what the new leader's log holds (under C14's representation invariant) *)
+
+Transparent stamp.
+Lemma stamp_noop t n : stamp [entry_default] t n = [mkEntry EntryNormal t n [] []].
+Proof. reflexivity. Qed.
+Opaque stamp.
+
+Theorem noop_append_abs rw l t l' z :
+  RaftLogProofs.RepInv rw l -> persisted l <= last_index l -> last_index l + 2 <= u64_max ->
+  log_append l (stamp [entry_default] t (last_index l + 1)) = Ok (l', z) ->
+  RaftLogProofs.ll_base (RaftLogProofs.abs l') = RaftLogProofs.ll_base (RaftLogProofs.abs l) /\
+  RaftLogProofs.ll_ents (RaftLogProofs.abs l') =
+    RaftLogProofs.ll_ents (RaftLogProofs.abs l) ++ [mkEntry EntryNormal t (last_index l + 1) [] []] /\
+  committed l' = committed l /\ RaftLogProofs.RepInv rw l'.
+Proof.
+  intros Hr Hp Hb H. rewrite stamp_noop in H.
+  pose proof (RaftLogProofs.abs_last rw l Hr) as Hal.
+  assert (Hcm : committed l <= RaftLogProofs.ll_last (RaftLogProofs.abs l)) by (destruct Hr; assumption).
+  destruct (RaftLogProofsOps.log_append_ok rw l (mkEntry EntryNormal t (last_index l + 1) [] []) [] Hr)
+    as (l2 & E & Hr2 & Habs & Hc & _); cbn [e_index length].
+  - split; [reflexivity|exact I].
+  - lia.
+  - lia.
+  - lia.
+  - lia.
+  - cbn [e_index length] in E. rewrite E in H. inversion H; subst l2 z; clear H.
+    rewrite Habs. unfold RaftLogProofs.ll_append. cbn [RaftLogProofs.ll_base RaftLogProofs.ll_ents e_index].
+    split; [reflexivity|]. split; [|split; assumption].
+    f_equal. apply firstn_all2. rewrite Hal. unfold RaftLogProofs.ll_last. lia.
+Qed.
+
+(* the completion theorem with the log spelled out: the target's log is the common log plus
+   its no-op, so it holds every entry the old leader had (committed or not) *)
+Theorem transfer_completes_log L T X vs m L1 c out rw :
+  Start L T X vs ->
+  m_type m = MsgTransferLeader -> m_from m = r_id T -> same_term_msg L m ->
+  step L m = Ok (L1, c) ->
+  mesh_rounds 3 [L1; T; X] = Ok out ->
+  RaftLogProofs.RepInv rw (r_log T) -> persisted (r_log T) <= last_index (r_log T) ->
+  last_index (r_log T) + 2 <= u64_max ->
+  RaftLogProofs.abs (r_log T) = RaftLogProofs.abs (r_log L) ->
+  exists L' T' X', out = [L'; T'; X'] /\
+    r_state T' = Leader /\ r_term T' = r_term L + 1 /\
+    RaftLogProofs.ll_base (RaftLogProofs.abs (r_log T')) = RaftLogProofs.ll_base (RaftLogProofs.abs (r_log L)) /\
+    RaftLogProofs.ll_ents (RaftLogProofs.abs (r_log T')) =
+      RaftLogProofs.ll_ents (RaftLogProofs.abs (r_log L)) ++
+      [mkEntry EntryNormal (r_term L + 1) (last_index (r_log L) + 1) [] []] /\
+    committed (r_log T') = committed (r_log T) /\
+    r_state L' = Follower /\ r_term L' = r_term L + 1 /\ r_vote L' = r_id T /\
+    r_lead_transferee L' = None.
+Proof.
+  intros S Hty Hf Hterm Hs Hrun Hr Hp Hb Habs.
+  pose proof (st_li_l _ _ _ _ S) as Hli.
+  destruct (transfer_completes _ _ _ _ _ _ _ _ S Hty Hf Hterm Hs Hrun)
+    as (L' & T' & X' & -> & A1 & A2 & _ & _ & (z & A5) & A6 & A7 & A8 & A9 & _).
+  destruct (noop_append_abs _ _ _ _ _ Hr Hp Hb A5) as (B1 & B2 & B3 & _).
+  exists L', T', X'. rewrite B1, B2, Habs, Hli. repeat split; assumption.
+Qed.
